@@ -845,6 +845,8 @@ def oracle_gate(case: dict, obs: dict) -> list[tuple[str, dict, dict]]:
             delivered += 1
             if o[1] in (indexed | late_indexed) and o[1] not in listed and o[3] is None:
                 initial.add((o[1], o[2]))
+            if o[3] == "DELETED":
+                indexed_once.add((o[1], o[2]))      # the object is gone: nothing of it is left to be indexed
         elif o[0] == "listed-yield":
             listed.add(o[1])
         elif o[0] == "index-end":
